@@ -1001,6 +1001,9 @@ func wgRunOne(b *BatchResult, prop string, seed, run uint64, p wgParams) {
 	} else if (prop == "C11" && r.chance(30)) || (prop == "C06" && r.chance(10)) || (prop == "C04" && r.chance(3)) {
 		m = genWildcardLattice(r)
 		b.Mix["wildcard_lattice_models"]++
+	} else if prop == "C11" && r.chance(2) {
+		m = genOddNames(r)
+		b.Mix["odd_name_models"]++
 	} else if r.chance(2) {
 		m = genSeparatorCollision(r)
 		b.Mix["separator_collision_models"]++
